@@ -1,8 +1,8 @@
 /-
 Driver of the C04 section of the oracle.
 
-  @ C04 slice <cmp> v…       Slice[int] from FromSlice(v…)      ops: push pop peek len rm fix set setfix popall popalln seq range rangeall
-  @ C04 heap <cmp>           two Heap[int] (A, B) from New(0,·) ops: init initc push pushe pop peek len rm fix setv setfix popall popalln seq range rangeall copyrm copyfix
+  @ C04 slice <cmp> v…       Slice[int] from FromSlice(v…)      ops: push pop peek len rm fix set setfix popall popalln seq range rangeall popallbody pull next stop
+  @ C04 heap <cmp>           two Heap[int] (A, B) from New(0,·) ops: init initc push pushe pop peek len rm fix setv setfix popall popalln seq range rangeall copyrm copyfix popallbody pull next stop
   @ C04 slicen <cmp> <cap>   Slice[int] from NewSlice(cap,·)     ops: as slice
   @ C04 generic <cmp> v…     recording container holding v…     ops: init push pop rm fix set
 
@@ -54,31 +54,77 @@ def parseSOp (ts : List String) : Option SOp :=
     if k = 0 then none else pure (.popAllN k)
   | _ => none
 
-/-- The slice driver's state: `Values` and the number of Seq values (`q := s.PopAll()`) the client
-holds — all of them denote this one slice, so `range i k` is `popalln k` for every known slot. -/
-def sliceStep (cmp : Int → Int → Bool) (st : List Int × Nat) (ts : List String) :
-    Option (Option ((List Int × Nat) × String)) :=
-  let s := st.1
+/-- `i:act[:arg]` items of a `popallbody` line → the script (calls of iteration 0, 1, …). -/
+def mkScript {α : Type} (items : List (Nat × α)) : List (List α) :=
+  let n := items.foldl (fun acc p => max acc (p.1 + 1)) 0
+  (List.range n).map fun i => (items.filter fun p => p.1 == i).map fun p => p.2
+
+def parseSBodyItem (t : String) : Option (Nat × SOp) :=
+  match t.splitOn ":" with
+  | [i, "push", v] => do pure (← i.toNat?, .push (← v.toInt?))
+  | [i, "peek"] => do pure (← i.toNat?, .peek)
+  | [i, "len"] => do pure (← i.toNat?, .len)
+  | [i, "pop"] => do pure (← i.toNat?, .pop)
+  | [i, "rm", j] => do pure (← i.toNat?, .remove (← j.toInt?))
+  | [i, "fix", j] => do pure (← i.toNat?, .fix (← j.toInt?))
+  | _ => none
+
+/-- The slice driver's state: `Values`, the number of Seq values (`q := s.PopAll()`) the client
+holds — all of them denote this one slice, so `range i k` is `popalln k` for every known slot — and
+the `iter.Pull` cursors made from them (`true` = still active; `next` on an active cursor is one
+`Pop`, which finishes the cursor when the slice is empty). -/
+structure SClient where
+  s    : List Int
+  nseq : Nat
+  curs : List Bool
+
+def sliceStep (cmp : Int → Int → Bool) (st : SClient) (ts : List String) :
+    Option (Option (SClient × String)) :=
+  let s := st.s
   match ts with
   | ["set", i, v] => do
     let i ← i.toNat?; let v ← v.toInt?
-    if i < s.length then pure (some ((s.set i v, st.2), s!"ok {showInts (s.set i v)}")) else none
-  | ["seq"] => pure (some ((s, st.2 + 1), s!"ok {showInts s}"))
+    if i < s.length then pure (some ({ st with s := s.set i v }, s!"ok {showInts (s.set i v)}")) else none
+  | ["seq"] => pure (some ({ st with nseq := st.nseq + 1 }, s!"ok {showInts s}"))
+  | ["pull", i] => do
+    let i ← i.toNat?
+    if i < st.nseq then pure (some ({ st with curs := st.curs ++ [true] }, s!"ok {showInts s}")) else none
+  | ["stop", j] => do
+    let j ← j.toNat?
+    if j < st.curs.length then pure (some ({ st with curs := st.curs.set j false }, s!"ok {showInts s}")) else none
+  | ["next", j] => do
+    let j ← j.toNat?
+    match st.curs[j]? with
+    | none => none
+    | some false => pure (some (st, s!"0 false {showInts s}"))
+    | some true =>
+      pure ((stepS cmp s .pop).map fun (s1, r) =>
+        match r with
+        | .val x true => ({ st with s := s1 }, s!"{x} true {showInts s1}")
+        | _ => ({ st with s := s1, curs := st.curs.set j false }, s!"0 false {showInts s1}"))
+  | "popallbody" :: k :: items => do
+    let k ← k.toNat?
+    let items ← items.mapM parseSBodyItem
+    let script := mkScript items
+    let fuel := s.length + (script.map List.length).sum + 1
+    pure ((Slice.popAllBody cmp (scriptBodyS script) k fuel 0 s).map fun (s1, xs, rs, d) =>
+      ({ st with s := s1 },
+       if d then s!"{showInts xs} {showInts (rs.flatMap SRet.toInts)} {showInts s1}" else s!"hang {showInts s1}"))
   | _ => do
     let op ← (match ts with
       | ["range", i, k] => do
         let i ← i.toNat?; let k ← k.toNat?
-        if i < st.2 ∧ k ≠ 0 then pure (SOp.popAllN k) else none
+        if i < st.nseq ∧ k ≠ 0 then pure (SOp.popAllN k) else none
       | ["rangeall", i] => do
         let i ← i.toNat?
-        if i < st.2 then pure SOp.popAll else none
+        if i < st.nseq then pure SOp.popAll else none
       | _ => parseSOp ts)
-    pure ((stepS cmp s op).map fun (s1, r) => ((s1, st.2), s!"{showSRet r} {showInts s1}"))
+    pure ((stepS cmp s op).map fun (s1, r) => ({ st with s := s1 }, s!"{showSRet r} {showInts s1}"))
 
 def runSliceFrom (cmp : Int → Int → Bool) (vs : List Int) (ops : List String) : List String :=
   match Slice.fromSlice cmp vs with
   | none => "panic" :: runOps (sliceStep cmp) none ops
-  | some s => s!"ok {showInts s}" :: runOps (sliceStep cmp) (some (s, 0)) ops
+  | some s => s!"ok {showInts s}" :: runOps (sliceStep cmp) (some ⟨s, 0, []⟩) ops
 
 def runSlice (hdr ops : List String) : List String :=
   match hdr with
@@ -121,6 +167,7 @@ def showRet (m : HMem) : HRet → String
   | .len n => toString n
   | .vals xs => showInts xs
   | .popped es => showInts (es.map m.val.get)   -- the values the iterator yielded
+  | .bodyRes es xs d => if d then s!"{showInts (es.map m.val.get)} {showInts xs}" else "hang"
 
 /-- One line → one client call (`HOp`), or the bare field write `setv e v` (`e.Value = v`
 without a `Fix`; the generator follows it by `fix` on the owner). `init` passes the comparator of
@@ -157,6 +204,16 @@ def parseHOp (cmp : Int → Int → Bool) (m : HMem) (ts : List String) : Option
     if k = 0 then none else pure (.popAllN h k)
   | _ => none
 
+def parseHBodyItem (m : HMem) (t : String) : Option (Nat × HOp) :=
+  match t.splitOn ":" with
+  | [i, "push", h, v] => do pure (← i.toNat?, .push (← parseHeap h) (← v.toInt?))
+  | [i, "peek", h] => do pure (← i.toNat?, .peek (← parseHeap h))
+  | [i, "len", h] => do pure (← i.toNat?, .len (← parseHeap h))
+  | [i, "pop", h] => do pure (← i.toNat?, .pop (← parseHeap h))
+  | [i, "rm", h, e] => do pure (← i.toNat?, .remove (← parseHeap h) (← parseElem m e))
+  | [i, "fix", h, e] => do pure (← i.toNat?, .fix (← parseHeap h) (← parseElem m e))
+  | _ => none
+
 /-- One line → one `COp` of the client (`HOp`s, held Seq values, struct copies). -/
 def parseCOp (cmp : Int → Int → Bool) (c : HClient) (ts : List String) : Option COp :=
   match ts with
@@ -167,6 +224,19 @@ def parseCOp (cmp : Int → Int → Bool) (c : HClient) (ts : List String) : Opt
   | ["rangeall", i] => do
     let i ← i.toNat?
     if i < c.seqs.length then pure (.rangeAll i) else none
+  | "popallbody" :: h :: k :: items => do
+    let h ← parseHeap h; let k ← k.toNat?
+    let items ← items.mapM (parseHBodyItem c.st.m)
+    pure (.popAllBody h k (mkScript items))
+  | ["pull", i] => do
+    let i ← i.toNat?
+    if i < c.seqs.length then pure (.pull i) else none
+  | ["next", j] => do
+    let j ← j.toNat?
+    if j < c.curs.length then pure (.next j) else none
+  | ["stop", j] => do
+    let j ← j.toNat?
+    if j < c.curs.length then pure (.stop j) else none
   | ["copyrm", h, e] => do
     let h ← parseHeap h; let e ← parseElem c.st.m e
     pure (.copyRemove h e)
@@ -184,7 +254,11 @@ def heapStep (cmp : Int → Int → Bool) (c : HClient) (ts : List String) :
     pure (some ({ c with st := { c.st with m := m1 } }, s!"ok | {m1.dump}"))
   | _ => do
     let op ← parseCOp cmp c ts
-    pure ((stepC c op).map fun (c1, r) => (c1, s!"{showRet c1.st.m r} | {c1.st.m.dump}"))
+    pure ((stepC c op).map fun (c1, r) =>
+      match op, r with
+      | .next _, .handle (some e) => (c1, s!"{c1.st.m.val.get e} true | {c1.st.m.dump}")
+      | .next _, _ => (c1, s!"0 false | {c1.st.m.dump}")
+      | _, _ => (c1, s!"{showRet c1.st.m r} | {c1.st.m.dump}"))
 
 /-- `@ C04 heap <cmp> [<capA> <capB> [zv]]` : two heaps from `New(cap, cmp)` — or, with `zv`, two
 zero values that the generator initialises by `init`/`initc` before any other use. Neither the
@@ -192,7 +266,7 @@ capacity nor the way the empty heap came about is observable. -/
 def runHeap (hdr ops : List String) : List String :=
   let go (c : String) : List String :=
     match cmpOf c with
-    | some cmp => s!"ok | {HMem.zero.dump}" :: runOps (heapStep cmp) (some ⟨HState.zero cmp, []⟩) ops
+    | some cmp => s!"ok | {HMem.zero.dump}" :: runOps (heapStep cmp) (some ⟨HState.zero cmp, [], []⟩) ops
     | none => bad ops
   match hdr with
   | [c] => go c
